@@ -12,10 +12,7 @@ import pipecorr
 
 META = {
     'theorem_files': ['Props/C08.v'],
-    'theorems': ['C08_escape_content_invertible', 'C08_escape_attribute_invertible', 'C08_text_is_serialised_events',
-                 'C08_text_needs_fit', 'C08_events_balanced', 'C08_segments_nested_by_map_path',
-                 'C08_repeated_loop_opens_fresh_element', 'C08_segment_tree_roundtrip', 'C08_roundtrip_needs_wellformed_ids',
-                 'C08_shipped_maps_prefix_safe', 'C08_prefix_safe_in_map'],
+    'theorems': ['C08_escape_content_invertible', 'C08_escape_attribute_invertible', 'C08_text_is_serialised_events', 'C08_text_needs_fit', 'C08_events_balanced', 'C08_segments_nested_by_map_path', 'C08_repeated_loop_opens_fresh_element', 'C08_segment_tree_roundtrip', 'C08_roundtrip_needs_wellformed_ids', 'C08_shipped_maps_prefix_safe', 'C08_prefix_safe_in_map', 'C08_xml_read_inverts_serialiser', 'C08_document_read_back'],
     'generators': ['c08.py'],
     'trusted_base': [
         'Coq 8.16.1 kernel; vm_compute for the per-map prefix-safety facts (regenerated from /repo/pyx12/map on every run) and '
